@@ -124,7 +124,7 @@ func TestVerifDump(t *testing.T) {
 		"int8": int8(0), "int16": int16(0), "int32": int32(0), "int64": int64(0),
 		"uint8": uint8(0), "uint16": uint16(0), "uint32": uint32(0), "uint64": uint64(0),
 		"float32": float32(0), "float64": float64(0), "bool": false, "slice_int": []int{}, "struct_s1": verifS1{},
-		"map_u32": map[uint32]int{},
+		"map_u32": map[uint32]int{}, "bytes": []byte{}, "array2_int": [2]int{}, "string": "",
 	}
 	for name, v := range types {
 		prog, err := newCompiler().compile(reflect.TypeOf(v))
